@@ -163,6 +163,17 @@ def mutations(name, spec, tier):
             if n >= (1 if tier == 'quick' else 4):
                 break
 
+    if c:
+        for a in c['attrs']:
+            T = refmodel.attr_type(lib.MODEL, a)
+            if ':' in a['name'] or not T.get('enums') or a.get('fixed'):
+                continue
+
+            def setbad(r, k=a['name']):
+                r.set(k, 'no-such-literal')
+            variant('invalid-enumeration-attribute:%s' % a['name'], setbad)
+            break
+
     def comment(r):
         r.insert(0, ET.Comment('a comment'))
     variant('comment', comment)
